@@ -454,10 +454,10 @@ def emit_all(data):
         dbs_imports += ["Barril.Gen.%sUnits" % cap, "Barril.Gen.%sCats" % cap]
         dbs_defs.append("def %sDb : Db := ⟨%s, %s, legacyList⟩" % (kind, uname, cname))
     # C06: the compact view of every POSC row (symbol, type, name, slope, written precision, ok) ...
-    crows = ["⟨%d,%d,%d,%s,%s,%s⟩" % (sym(r["sym"]), sym(r["qtype"]), sym(r["name"]),
-                                        _rat(r["tobase"][1] / r["tobase"][2]) if r["tobase"][2] != 0 else "(R 0 1)",
-                                        _rat(r["prec"]), "true" if r["ok"] else "false")
-             for r in data["posc"]["units"]]
+    crows = ["⟨%d,%d,%d,%s,%s,%s,%d⟩" % (sym(r["sym"]), sym(r["qtype"]), sym(r["name"]),
+                                           _rat(r["tobase"][1] / r["tobase"][2]) if r["tobase"][2] != 0 else "(R 0 1)",
+                                           _rat(r["prec"]), "true" if r["ok"] else "false", i)
+             for i, r in enumerate(data["posc"]["units"])]
     cnames, cmods_c = em.chunked("poscK", "PoscK", "CRow", crows, imports="import Barril.Model.Compound\n")
     em.add("PoscCompact.lean", "".join("import Barril.Gen.%s\n" % m for m in cmods_c) +
            "namespace Barril.Gen\nopen Barril\n/-- compact rows of the default database, same order as `poscUnits` -/\n"
@@ -569,7 +569,10 @@ def emit_all(data):
                "set_option linter.unusedSimpArgs false\nnamespace Barril.Gen\nopen Barril\n"
                "/-- the compact table is the default database's unit table, row by row -/\n"
                "theorem poscC_core : poscC.map CRow.core = poscUnits.map UnitRow.core := by\n"
-               "  simp only [poscC, poscUnits, List.map_append, %s]\nend Barril.Gen\n" % ", ".join(core_thms))
+               "  simp only [poscC, poscUnits, List.map_append, %s]\n"
+               "/-- every row of the compact table carries its position in the table -/\n"
+               "theorem poscC_pos : poscC.map CRow.pos = List.range poscC.length := by decide +kernel\n"
+               "end Barril.Gen\n" % ", ".join(core_thms))
         # everything stored in the index is a row of the table (per subtree, then the inner nodes)
         sub_mods = []
         for tn_ in c06_subtrees:
